@@ -88,6 +88,8 @@ func (server *SugarDB) Flush(database int) {
 
 	if database == -1 {
 		for db, _ := range server.store {
+			// The flushed keys no longer count towards the memory usage.
+			server.releaseAccountedMemory(db)
 			// Clear db store.
 			clear(server.store[db])
 			// Clear db volatile key tracker.
@@ -109,6 +111,8 @@ func (server *SugarDB) Flush(database int) {
 		return
 	}
 
+	// The flushed keys no longer count towards the memory usage.
+	server.releaseAccountedMemory(database)
 	// Clear db store.
 	clear(server.store[database])
 	// Clear db volatile key tracker.
@@ -121,6 +125,15 @@ func (server *SugarDB) Flush(database int) {
 	server.lruCache.cache[database].Mutex.Lock()
 	server.lruCache.cache[database].Flush()
 	server.lruCache.cache[database].Mutex.Unlock()
+}
+
+// releaseAccountedMemory deducts everything that is accounted for the keys of the database from memUsed.
+// The caller must hold storeLock.
+func (server *SugarDB) releaseAccountedMemory(database int) {
+	for _, size := range server.keySizes[database] {
+		server.memUsed -= size
+	}
+	clear(server.keySizes[database])
 }
 
 func (server *SugarDB) keysExist(ctx context.Context, keys []string) map[string]bool {
@@ -249,9 +262,14 @@ func (server *SugarDB) setValues(ctx context.Context, entries map[string]interfa
 		if err != nil {
 			return err
 		}
-		server.memUsed += mem
-		server.memUsed += int64(unsafe.Sizeof(key))
-		server.memUsed += int64(len(key))
+		// Account for the difference between what the key occupies now and what was accounted for it before
+		// (nothing if the key is new), so that overwrites and in-place growth do not inflate the figure.
+		size := mem + int64(unsafe.Sizeof(key)) + int64(len(key))
+		if server.keySizes[database] == nil {
+			server.keySizes[database] = make(map[string]int64)
+		}
+		server.memUsed += size - server.keySizes[database][key]
+		server.keySizes[database][key] = size
 
 		if !server.isInCluster() {
 			server.snapshotEngine.IncrementChangeCount()
@@ -308,15 +326,9 @@ func (server *SugarDB) setExpiry(ctx context.Context, key string, expireAt time.
 func (server *SugarDB) deleteKey(ctx context.Context, key string) error {
 	database := ctx.Value("Database").(int)
 
-	// Deduct memory usage in tracker.
-	data := server.store[database][key]
-	mem, err := data.GetMem()
-	if err != nil {
-		return err
-	}
-	server.memUsed -= mem
-	server.memUsed -= int64(unsafe.Sizeof(key))
-	server.memUsed -= int64(len(key))
+	// Deduct what is accounted for the key from the memory usage tracker.
+	server.memUsed -= server.keySizes[database][key]
+	delete(server.keySizes[database], key)
 
 	// Delete the key from keyLocks and store.
 	delete(server.store[database], key)
